@@ -10,7 +10,11 @@ def regen_source(ctx):
     tmp = os.path.join(ctx.scratch, "C07_Src.lean")
     out_ast = os.path.join(checklib.LEAN, "Hive", "Gen", "C07_Ast.lean")
     tmp_ast = os.path.join(ctx.scratch, "C07_Ast.lean")
-    rc, log = checklib.sh(["go", "run", "./c07/srcgen", tmp, "Hive.Gen.C07Src", os.path.join(ctx.repo, "kvstore/sequence.go"),
+    srcgen = os.path.join(ctx.scratch, "c07_srcgen")
+    rc, log = checklib.sh(["go", "build", "-o", srcgen, "./c07/srcgen"], cwd=checklib.HARNESS, timeout=600)
+    if rc != 0:
+        return [{"kind": "source-extractor", "detail": checklib.tail(log, 20)}]
+    rc, log = checklib.sh([srcgen, tmp, "Hive.Gen.C07Src", os.path.join(ctx.repo, "kvstore/sequence.go"),
                            tmp_ast, "Hive.Gen.C07Ast"], cwd=checklib.HARNESS, timeout=600)
     if rc != 0 or not os.path.exists(tmp) or not os.path.exists(tmp_ast):
         return [{"kind": "source-extractor", "detail": checklib.tail(log, 20)}]
@@ -23,8 +27,7 @@ def regen_source(ctx):
     for mod, rel in (("SrcDebug", "kvstore/debug/debug.go"), ("SrcFlush", "kvstore/flushkv/flushkv.go"),
                      ("SrcMapdb", "kvstore/mapdb/mapdb.go"), ("SrcSynced", "kvstore/mapdb/synced_map.go")):
         tmp_l = os.path.join(ctx.scratch, "C07_%s.lean" % mod)
-        rc, log = checklib.sh(["go", "run", "./c07/srcgen", tmp_l, "Hive.Gen.C07" + mod, os.path.join(ctx.repo, rel)],
-                              cwd=checklib.HARNESS, timeout=600)
+        rc, log = checklib.sh([srcgen, tmp_l, "Hive.Gen.C07" + mod, os.path.join(ctx.repo, rel)], cwd=checklib.HARNESS, timeout=600)
         if rc != 0 or not os.path.exists(tmp_l):
             fails.append({"kind": "source-extractor", "detail": rel + ": " + checklib.tail(log, 20)})
             continue
